@@ -33,7 +33,25 @@ def resolve(e, env, depth=10):
             if isinstance(n.ctx, ast.Load) and n.id in env and depth > 0:
                 return copy.deepcopy(env[n.id])
             return n
-    return Sub().visit(copy.deepcopy(e))
+    return deref(Sub().visit(copy.deepcopy(e)))
+
+
+def deref(e):
+    """pointer aliases of the Cython sources: `(&X[k])[j]` (lowered as `__addr__(X[k])[j]`) is `X[k + j]`"""
+    class D(ast.NodeTransformer):
+        def visit_Subscript(self, n):
+            self.generic_visit(n)
+            v = n.value
+            if isinstance(v, ast.Call) and isinstance(v.func, ast.Name) and v.func.id == '__addr__' and len(v.args) == 1 and isinstance(v.args[0], ast.Subscript):
+                inner = v.args[0]
+                j = n.slice
+                if isinstance(j, ast.Constant) and j.value == 0:
+                    idx = inner.slice
+                else:
+                    idx = ast.BinOp(left=inner.slice, op=ast.Add(), right=j)
+                return ast.Subscript(value=inner.value, slice=idx, ctx=n.ctx)
+            return n
+    return ast.fix_missing_locations(D().visit(e))
 
 
 def _names_read(e):
@@ -235,7 +253,13 @@ def stores_on(path):
     for i, e in enumerate(path):
         if e.kind == 'stmt' and isinstance(e.node, ast.Assign):
             for t in e.node.targets:
-                out.append((i, ast.unparse(t).replace(' ', ''), resolve(e.node.value, e.env)))
+                tt = t
+                if isinstance(t, ast.Subscript):
+                    # the stored-to location with aliases of its base / index substituted (p[0] with p = &X[k] is X[k])
+                    tl = copy.deepcopy(t)
+                    tl.ctx = ast.Load()
+                    tt = resolve(tl, e.env)
+                out.append((i, ast.unparse(tt).replace(' ', ''), resolve(e.node.value, e.env)))
         elif e.kind == 'stmt' and isinstance(e.node, ast.AnnAssign) and e.node.value is not None:
             out.append((i, ast.unparse(e.node.target).replace(' ', ''), resolve(e.node.value, e.env)))
     return out
